@@ -30,7 +30,7 @@ ASSUMPTIONS = ['a compound assignment inside an ast_names body that mutates a sh
 REAL = ['smartquery.*']
 STUB = ['host callbacks call / attempt / t / boom']
 REACH_PROBES = ('second_names_mapping', 'parse_failure_between_evals', 'body_raised', 'host_swallow', 'budget_abort_in_lambda', 'shadow_builtin', 'shadow_host', 'recursion',
-                'cross_eval_lambda', 'ast_names_body', 'failed_then_judged', 'depth_checked', 'hof_driver', 'same_source_other_mapping')
+                'cross_eval_lambda', 'ast_names_body', 'failed_then_judged', 'depth_checked', 'hof_driver', 'same_source_other_mapping', 'eval_without_names')
 
 POOL = ['x', 'y', 'v', 'len', 'max', 'acc']
 HOFS = ['map', 'filter', 'reduce', 'sorted']
@@ -180,6 +180,15 @@ class G:
                 if v in ('len', 'max'):
                     self.kinds.add('shadow_builtin')
                 stmts.append(['assign', v, r.choice([gen.num_tree(r), ['str', 'top-' + v], ['list', [['num', '1']]], ['none']])])
+        if r.random() < 0.06:
+            # the names that index sugar maps to are names like any other: a binding at any level wins over the builtin
+            self.kinds.add('shadow_builtin')
+            if r.random() < 0.5:
+                stmts.append(['assign', '__getitem__', ['lambda', ['q1', 'q2'], ['str', 'shadowed-index']]])
+                stmts.append(['assign', 'r1', ['index', ['list', [['num', '1'], ['num', '2']]], ['num', '0']]])
+            else:
+                stmts.append(['assign', 'hh', ['lambda', ['__getitem__'], ['index', ['list', [['num', '1'], ['num', '2']]], ['num', '0']]]])
+                stmts.append(['assign', 'r2', ['call', 'hh', [['lambda', ['a1', 'a2'], ['str', 'param-index']]], 'plain']])
         if r.random() < 0.15:
             # host / top-level / parameter bindings win over builtins of the same name whatever their signature
             bn = r.choice(['len', 'sum', 'pop', 'get', 'str', 'keys'])
@@ -245,6 +254,10 @@ def generate(seed, tier):
         model = models[si]
         g = G(ro, model)
         op = {'op': 'eval', 'space': si}
+        if rf.random() < 0.05:
+            # an evaluation given NO names mapping at all: what it assigns is its own business and nobody else's
+            ops.append({'op': 'nonames', 'space': si, 'src': rf.choice(['total = 4', 'len = 3', 'x = 1; y = x + 1', 'max = v => 0; max(1)', 'acc = [1]; acc'])})
+            continue
         if rf.random() < 0.12:
             # a call whose text does not parse (fault between "scope pushed" and "evaluation started")
             from .. import badsrc
@@ -306,6 +319,18 @@ def execute(case, ctx):
         W = Ws[op.get('space', 0)]
         if len(Ws) > 1:
             ctx.probe('second_names_mapping')
+        if op['op'] == 'nonames':
+            try:
+                W.parser.eval(op['src'])
+            except Exception:
+                pass
+            ctx.fault('names_omitted')
+            ctx.probe('eval_without_names')
+            now = _functions_snapshot()
+            if now != snap:
+                ctx.report('builtin_table_modified', 'step %d eval(%r) without a names mapping: FUNCTIONS changed: %s' % (
+                    step, op['src'], sorted(set(map(str, now)) ^ set(map(str, snap)))[:6]), {'kind': 'builtin_table_modified'})
+            continue
         if op['op'] == 'bad':
             from ..world import real_eval as _re
             rout = _re(W.parser, op['src'], W.names)
